@@ -101,12 +101,12 @@ Goal True. idtac "ASSUME C16_vcf_ignored_shapes". Abort.
 Print Assumptions C16_vcf_ignored_shapes.
 
 (* which records have no use: non-diploid or missing genotypes, records on an N position, alleles of another shape,
-   multi-base replacements that are not a catalogued multi-substitution *)
+   multi-base replacements that are neither a left-padded substitution nor a catalogued multi-substitution *)
 Theorem C16_ignored_kinds : forall g r,
   (diploid r = None -> record_uses g r = []) /\ (base g (v_pos r - 1) = 78 -> record_uses g r = []) /\
   (forall pos ref alt, other_shape ref alt = true -> alt_uses g pos ref alt = []) /\
-  (forall pos ref alt, length ref = length alt -> (2 <= length alt)%nat -> mnp_catalogued g (subs_of g pos alt) = false ->
-     alt_uses g pos ref alt = []).
+  (forall pos ref alt, length ref = length alt -> (2 <= length alt)%nat -> padded_sub ref alt = false ->
+     mnp_catalogued g (subs_of g pos alt) = false -> alt_uses g pos ref alt = []).
 Proof. exact ignored_kinds. Qed.
 Goal True. idtac "ASSUME C16_ignored_kinds". Abort.
 Print Assumptions C16_ignored_kinds.
